@@ -22,15 +22,25 @@ package cache
 //@   safety off
 //@   requires r.used <= r.capacity
 //@   ensures [C17:within-capacity] r.used <= r.capacity && r.capacity == old(r.capacity)
+// (an entry that is un-charged has left the recency list: left on the list it would be un-charged a second time when
+// the policy reaches it, and the policy would then retain more than its capacity)
+//@ func (*lruNode).remove
+//@   props C17
+//@   safety off
+//@   ensures [C17:a-removed-node-is-off-the-list] n.prev == nil && n.next == nil
 //@ func (*lru).Evict
 //@   props C17
 //@   safety off
+//@   at before stmt r.used -= n.Size()
+//@     assert [C17:an-uncharged-entry-has-left-the-recency-list] rn.prev == nil && rn.next == nil
 //@   ensures [C17:eviction-uncharges-the-node] (calls("(*Handle).Release") == old(calls("(*Handle).Release")) + 1) ==> (r.used == old(r.used) - n.size && n.CacheData == nil)
 //@   ensures [C17:no-eviction-no-change] (calls("(*Handle).Release") == old(calls("(*Handle).Release"))) ==> r.used == old(r.used)
 //@   ensures [C17:at-most-one-release] calls("(*Handle).Release") == old(calls("(*Handle).Release")) || calls("(*Handle).Release") == old(calls("(*Handle).Release")) + 1
 //@ func (*lru).Ban
 //@   props C17
 //@   safety off
+//@   at before stmt r.used -= rn.n.Size()
+//@     assert [C17:an-uncharged-entry-has-left-the-recency-list] rn.prev == nil && rn.next == nil
 //@   guarantees [C17:ban-uncharges-the-node] (calls("(*Handle).Release") == old(calls("(*Handle).Release")) + 1) ==> (r.used == old(r.used) - rn.n.size && rn.ban)
 //@   ensures [C17:no-release-no-change] (calls("(*Handle).Release") == old(calls("(*Handle).Release"))) ==> r.used == old(r.used)
 
